@@ -129,6 +129,15 @@ def run(ctx) -> Result:
         sc = make_scenario(rng, deep)
         r = vtime.run(lambda loop, s=sc: scenario(s), budget=80_000_000)
         check(r, model, res, f"run-{seed}-{i}")
+    # the same runner on the Redis and RabbitMQ brokers (in-process fake servers; prefetching consumers)
+    for kind in ("redis", "rabbit"):
+        for i in range(12 if deep else 4):
+            rng = Rng(seed, f"c09/{kind}/{i}")
+            sc = make_scenario(rng, deep)
+            sc["broker"], sc["consumer_latency_us"] = kind, 0
+            r = vtime.run(lambda loop, s=sc: scenario(s), budget=300_000_000)
+            check(r, model, res, f"run-{kind}-{seed}-{i}")
+            res.dist[f"broker:{kind}"] += 1
     return res
 
 
